@@ -62,7 +62,7 @@ REQUIRED_CLASSES = ['top:' + c for c in TOP_CLASSES] + [
 # if it does not already make it a violation)
 REQUIRED_BRANCHES = ['to_dict:' + c for c in TOP_CLASSES] + ['from_dict:' + c for c in [
     'EmptyMode', 'FreeTrans', 'HarmonicVib', 'QRRHOVib', 'EinsteinVib', 'DebyeVib', 'RigidRotor',
-    'GroundStateElec', 'EmptyNucl', 'StatMech', 'Nasa', 'SingleNasa9', 'Shomate',
+    'GroundStateElec', 'EmptyNucl', 'StatMech', 'Nasa', 'Nasa9', 'SingleNasa9', 'Shomate',
     'Reference', 'References', 'GasPressureAdj', 'PiecewiseCovEffect', 'CatSite', 'BEP',
     'Reaction', 'Reactions', 'IdealGasEOS', 'vanDerWaalsEOS']]
 REQUIRED_PROBES = ['pmuttEncoder.default', 'json_to_pmutt', 'type_to_class', 'remove_class']
